@@ -253,7 +253,16 @@ class Component( ComponentLevel7 ):
 
     # Put the parent's explicit constraints back on the ports of the new component
     for cons in provided_constraints:
-      if cons[0] == 'M':
+      if cons[0] == 'U':
+        blks = []
+        for b in cons[1:]:
+          if isinstance( b, tuple ): # ( component name, block name )
+            b = eval( b[0] )._dsl.name_upblk.get( b[1] )
+          blks.append( b )
+        if None not in blks:
+          parent._dsl.U_U_constraints.add( tuple(blks) )
+          top._dsl.all_U_U_constraints.add( tuple(blks) )
+      elif cons[0] == 'M':
         _, x, y, is_equal = cons
         x = eval(x) if isinstance( x, str ) else x
         y = eval(y) if isinstance( y, str ) else y
@@ -433,6 +442,19 @@ class Component( ComponentLevel7 ):
             if not glob[var]:
               del glob[var]
           saved_constraints.append( ( kind, "top"+repr(var)[1:], cons ) )
+
+      # U(s.c.get_update_block('up')) < U(blk): the parent ordered a block of
+      # the removed component; the block of that name of the new component
+      # takes its place
+      removed_blks = {}
+      for c in removed_components:
+        for blk in c._dsl.upblks:
+          removed_blks[ blk ] = ( "top"+repr(c)[1:], blk.__name__ )
+      for (x, y) in list( parent._dsl.U_U_constraints ):
+        if x in removed_blks or y in removed_blks:
+          parent._dsl.U_U_constraints.discard( (x, y) )
+          top._dsl.all_U_U_constraints.discard( (x, y) )
+          saved_constraints.append( ( 'U', removed_blks.get( x, x ), removed_blks.get( y, y ) ) )
 
       if hasattr( parent._dsl, 'M_constraints' ):
         for (x, y, is_equal) in list( parent._dsl.M_constraints ):
